@@ -920,3 +920,88 @@ class ServerProp:
 
 
 REGISTRY["C18"] = ServerProp()
+
+
+# =========================================================================== design-level model-checking legs
+import hashlib  # noqa: E402
+import mcinst  # noqa: E402
+
+
+def spec_hash():
+    h = hashlib.sha256()
+    for f in sorted(os.listdir(common.SPEC)):
+        if f.endswith(".tla"):
+            with open(os.path.join(common.SPEC, f), "rb") as fh:
+                h.update(f.encode())
+                h.update(fh.read())
+    return h.hexdigest()[:16]
+
+
+def mc_cached(out, key, runner):
+    """Run a design-level TLC model (independent of /repo) once per specification version."""
+    d = os.path.join(common.WORK, "cache", "mc_" + spec_hash())
+    os.makedirs(d, exist_ok=True)
+    p = os.path.join(d, key + ".json")
+    if os.path.exists(p):
+        with open(p) as f:
+            rec = json.load(f)
+    else:
+        res = runner()
+        rec = {"distinct": res.distinct, "generated": res.generated, "wall": res.wall, "errors": res.errors,
+               "violations": res.violations}
+        if not res.errors:
+            with open(p, "w") as f:
+                json.dump(rec, f)
+    if rec["errors"]:
+        raise ToolError("TLC error in model %s: %s" % (key, rec["errors"][0][:1200]))
+    if rec["violations"]:
+        raise ToolError("the specification violates its own property in model %s: %s" % (key, rec["violations"][0]))
+    out.states += rec["distinct"]
+    out.transitions += rec["generated"]
+    out.tlc_runs.append({"run": "MC:" + key, "distinct": rec["distinct"], "generated": rec["generated"],
+                         "wall_s": round(rec["wall"], 2)})
+
+
+def mc_pipeline(out, tier):
+    mv = "1" if tier == "quick" else "2"
+    mc_cached(out, "Pipeline_%s" % mv, lambda: common.run_tlc(
+        "Pipeline", spec="Spec", invariants=["TypeOK", "ResultNotWorse", "DemandKept", "StepsBounded"],
+        properties=["Termination", "Descent"], constants={"MaxVal": mv}, workers=4, timeout=3000, cont=False))
+
+
+def mc_schedule(out, tier):
+    ntrips, bounds = (2, ("2", "1", "3")) if tier == "quick" else (3, ("2", "1", "3"))
+    d = os.path.join(common.WORK, "cache", "mc_" + spec_hash())
+    os.makedirs(d, exist_ok=True)
+    for variant in ((0,) if tier == "quick" else (0, 1)):
+        ip = os.path.join(d, "mcinst_%d_%d.json" % (variant, ntrips))
+        with open(ip, "w") as f:
+            json.dump(gen.spec_view(mcinst.tiny(variant, ntrips)), f)
+        mc_cached(out, "MC_Schedule_v%d_t%d_%s" % (variant, ntrips, "_".join(bounds)), lambda: common.run_tlc(
+            "MC_Schedule", invariants=["AbsInv", "OutputFromInv", "OutputWhenAligned"],
+            constants={"MaxReal": bounds[0], "MaxDummy": bounds[1], "MaxId": bounds[2]},
+            extra_env={"INSTANCE": ip}, workers=max(4, common.NCPU - 2), timeout=6000, cont=False, xmx="12g"))
+
+
+MC_LEGS = {
+    "C01": [mc_schedule], "C02": [mc_schedule], "C03": [mc_schedule], "C05": [mc_schedule],
+    "C10": [mc_schedule], "C13": [mc_schedule],
+    "C06": [mc_pipeline], "C07": [mc_pipeline], "C08": [mc_pipeline], "C16": [mc_pipeline],
+}
+
+
+def with_mc(entry, prop_ids):
+    """Wrap an entry's run so that the property's design-level model is checked as well."""
+    orig = entry.run
+
+    def run(prop, tier, seed):
+        out = orig(prop, tier, seed)
+        for leg in MC_LEGS.get(prop, []):
+            leg(out, tier)
+        return out
+
+    entry.run = run
+
+
+for _e in set(REGISTRY.values()):
+    with_mc(_e, None)
